@@ -49,7 +49,7 @@ func main() {
 		nh = 600
 	}
 	if mode == "search" {
-		nh = 900
+		nh = 150
 	}
 	if v := lib.EnvInt("VERIF_N", 0); v > 0 {
 		nh = int(v)
